@@ -124,6 +124,8 @@ def cases(tier, seed):
             out.append(('inits/%s/%s' % (name, dsn), ('inits', name, dsn, seed)))
     out.append(('priors/wide_spectrum', ('spectrum', seed)))
     out.append(('priors/tiny_units', ('tiny', seed)))
+    for name in ('LMNN', 'NCA', 'MLKR'):
+        out.append(('inits/%s/auto_rule_few_samples' % name, ('autorule', name, seed)))
     out.append(('priors/huge_units', ('huge', seed)))
     return out
 
@@ -357,6 +359,34 @@ def run_case(spec):
         return dict(evals=evals, sigs=sigs, viol=viol,
                     sample={'dataset': dsn, 'options': ['identity', 'covariance', 'random', 'array', 'rejected arrays', 'singular']})
 
+    if kind == 'autorule':
+        # the documented selection rule of init='auto' where its three conditions meet: fewer samples than features
+        _, name, seed = spec
+        rs = np.random.RandomState(77)
+        for (n, d, ncls) in ((6, 8, 2), (7, 5, 3), (9, 9, 3)):
+            y = np.arange(n) % ncls
+            X = np.round((rs.randn(n, d) + 2 * rs.randn(ncls, d)[y]) * 64) / 64
+            yy = np.round(X[:, 0] * 64) / 64 if name == 'MLKR' else y
+            zero_iter = {'LMNN': dict(max_iter=2, n_neighbors=1), 'NCA': dict(tol=1e10), 'MLKR': dict(tol=1e10)}[name]
+            for nc in range(1, min(n, d) + 1):
+                if name != 'MLKR' and nc <= min(d, ncls - 1):
+                    rule = 'lda'
+                elif nc < min(d, n):
+                    rule = 'pca'
+                else:
+                    rule = 'identity'
+                try:
+                    La = zoo.cls(name)(init='auto', n_components=nc, random_state=0, **zero_iter).fit(X.copy(), yy.copy()).components_
+                    Lr = zoo.cls(name)(init=rule, n_components=nc, random_state=0, **zero_iter).fit(X.copy(), yy.copy()).components_
+                except Exception as e:
+                    viol.append(V(name + '.fit', 'init_auto', 'fit raised %s on a %dx%d dataset with n_components=%d' % (type(e).__name__, n, d, nc), ['few_samples']))
+                    continue
+                evals += 2
+                sigs.add((name, n, d, nc, rule))
+                if not np.array_equal(La, Lr):
+                    viol.append(V(name + '.fit', 'init_auto', "%d samples x %d features, n_components=%d: init='auto' differs from init=%r, which the "
+                                  'documented rule selects' % (n, d, nc, rule), ['few_samples', rule]))
+        return dict(evals=evals, sigs=sigs, viol=viol, sample={'learner': name, 'datasets': '6x8, 7x5, 9x9', 'rule': "auto -> lda / pca / identity"})
     if kind == 'inits':
         _, name, dsn, seed = spec
         ds = data.dataset('R', seed) if dsn == 'R' else data.dataset(dsn)
